@@ -570,6 +570,8 @@ def _u_frexp(x):
     zu = P.vars[vid].z
     # contract of frexp (tier 1: rarely needed): x == 0 or 1/2 <= |x|/u < 1
     try:
+        if len(x.n.t) > 30 or x.d is not None:
+            raise OverflowError("contract of frexp omitted for large terms (it is only a tier-1 fact about the magnitude)")
         zx = x.z3()
         az = z3.If(zx >= 0, zx, -zx)
         P.add_def(z3.Or(zx == 0, z3.And(2 * az >= zu, az < zu)), tier=1)
